@@ -447,8 +447,8 @@ impl Property for C34 {
         "an arbitrary filter is built by pushing 512 bytes through a one-chunk RemoteBloomFilter (BloomFilter has no byte constructor); the result is compared with the bytes before use",
         "'or not at all' is accepted for any request; an answer to the client's own (always in-range) chunk request is required",
     ];
-    const QUICK_CASES: u32 = 200_000;
-    const THOROUGH_CASES: u32 = 8_000_000;
+    const QUICK_CASES: u32 = 800_000;
+    const THOROUGH_CASES: u32 = 12_000_000;
 
     fn strategy(tier: Tier) -> BoxedStrategy<Case> {
         prop_oneof![
